@@ -377,6 +377,11 @@ func checkC01(c *Ctx) {
 		r.Floor("C01/STORE/errors", "tested errors on the AddMessage paths of the stores", nSE, 3)
 	}
 
+	c.c01RefusedGainsNothing(m)
+	// Deliver itself: a failure on the way to the store is not reported as a delivery
+	r.Rule("C01/DELIVER/errors", "in pkg/message no return reports success on the branch where a call's error is known non-nil, and none reports a failure built from an error known nil")
+	r.Floor("C01/DELIVER/errors", "returns examined", c.errContradictions("C01/DELIVER/errors", pkgFuncs(p, "pkg/message"), "Deliver returns nil although the message was not handed to the store: the SMTP client is told 250 and the mail is gone"), 5)
+
 	// "in the mailbox its address names": the name a recipient's copy is filed under is computed
 	// by the same function every reader uses (decided by C04's one-authority rule)
 	nNm := c.borrow(checkC04, "C04/ONE-AUTHORITY/Recipient.Mailbox", "C01/NAME/recipient-mailbox", "Recipient.Mailbox is written only in NewRecipient, from ExtractMailbox of the recipient's own address: delivery and lookup name the mailbox alike")
@@ -1086,4 +1091,88 @@ func cellOfLoad(v ssa.Value) *ssa.Alloc {
 		return nil
 	}
 	return eng.CellOf(ad)
+}
+
+// c01RefusedGainsNothing: "a refused recipient gains nothing" — once a recipient has been put on
+// the envelope, the first reply the client sees for that command is not a refusal (4xx/5xx). A
+// recipient that is appended and then answered 552 stays on the list, and the DATA that follows
+// stores a copy for it. The search starts at each append(recipients); a path ends at the first
+// reply, at an envelope reset or at the next command read; a path that leaves the function
+// without a reply goes on behind each of its call sites.
+func (c *Ctx) c01RefusedGainsNothing(m *smtpModel) {
+	p, r := c.P, c.R
+	r.Rule("C01/RCPT/refused-gains-nothing", "after append(recipients) the first reply of the command is not a 4xx/5xx refusal (followed through helper returns): a recipient that is refused is not on the envelope")
+	n := 0
+	ord := map[string]int{}
+	for _, fn := range m.fns {
+		fn := fn
+		eng.EachInstr(fn, func(in ssa.Instruction) {
+			st, ok := in.(*ssa.Store)
+			if !ok {
+				return
+			}
+			fa, ok := st.Addr.(*ssa.FieldAddr)
+			if !ok || !eng.SameField(eng.FieldOfAddr(fa), m.fRecips) {
+				return
+			}
+			call, ok := st.Val.(*ssa.Call)
+			if !ok || eng.CalleeName(call.Common()) != "builtin.append" {
+				return
+			}
+			n++
+			cons := siteCons(p, in, ord, "append")
+			isRefusal := func(x ssa.Instruction) bool {
+				if !m.isSend(x) {
+					return false
+				}
+				pre, okp := m.sendPrefix(x)
+				cl := replyClass(pre, okp)
+				return cl == '4' || cl == '5'
+			}
+			stops := func(x ssa.Instruction) bool {
+				if m.isSend(x) && !isRefusal(x) {
+					return true
+				}
+				if m.isReset(x) {
+					return true
+				}
+				if cl, isCall := x.(*ssa.Call); isCall {
+					if g := eng.StaticCallee(cl.Common()); g != nil && (g == m.readLine || g == m.dataRead) {
+						return true
+					}
+				}
+				return false
+			}
+			var bad ssa.Instruction
+			seen := map[ssa.Instruction]bool{}
+			var from func(at ssa.Instruction, depth int)
+			from = func(at ssa.Instruction, depth int) {
+				if bad != nil || seen[at] || depth > 3 {
+					return
+				}
+				seen[at] = true
+				s1 := &eng.Search{Target: isRefusal, Avoid: stops, Deep: true, DeepHit: true}
+				if hit := s1.After(at); hit != nil {
+					bad = hit
+					return
+				}
+				s2 := &eng.Search{Target: func(x ssa.Instruction) bool { _, isRet := x.(*ssa.Return); return isRet }, Avoid: stops, Deep: true}
+				if s2.After(at) == nil {
+					return
+				}
+				for _, cs := range p.StaticCallSites(at.Parent()) {
+					if _, isCall := cs.Instr.(*ssa.Call); isCall {
+						from(cs.Instr.(ssa.Instruction), depth+1)
+					}
+				}
+			}
+			from(st, 0)
+			if bad != nil {
+				r.Bad("C01/RCPT/refused-gains-nothing", cons, p.InstrPos(st), "the recipient is appended to the envelope here and the command can still be answered with the refusal at %s: the client is told the recipient was not accepted, yet the message data that follows is stored for it", p.InstrPos(bad))
+			} else {
+				r.Ok("C01/RCPT/refused-gains-nothing", cons, p.InstrPos(st), "no refusal reply is reachable after the append before the command is answered")
+			}
+		})
+	}
+	r.Floor("C01/RCPT/refused-gains-nothing", "append(recipients) sites", n, 1)
 }
